@@ -63,6 +63,8 @@ def gen_case(rng: random.Random, tier: str, bias: str = ''):
     if kind == 'srv_call':
         n = max(n, 1)
     conc = rng.choice([1, 2, 3])
+    if kind in ('apmap_thread', 'pmap_async') and n == 7:
+        n = 2 * conc + 3 + 4        # longer than the look-ahead bound of the stage (C08)
     cap = rng.choice([1, 2, 3, 5]) if kind not in ('apmap_thread', 'pmap_async') else 2 * conc
     pre = kind != 'srv_call' and rng.random() < (0.85 if bias == 'pre' else 0.5)
     ppf = rng.choice([0.15, 0.3, 0.5]) if bias == 'pre' else 0.15
@@ -157,6 +159,12 @@ def _one_side(case, asynchronous):
 
     run = {'cur': 0, 'max': 0}     # invocations of the worker function that are under way (C08)
 
+    def watch_over():
+        # once an element whose exception ends the iteration has its result, the generator may already be unwinding
+        # with it (draining its queue lets the feeder pull once more before it sees the stop flag): the look-ahead
+        # watch ends here, so that it never over-counts (same rule as scen_fifo)
+        ahead['over'] = True
+
     def compute(x):
         i = x - off
         calls[i] = calls.get(i, 0) + 1
@@ -169,6 +177,8 @@ def _one_side(case, asynchronous):
             for _ in range(dur[i]):
                 detsched.yield_here('work')
             if i in re:
+                if not case['rexc']:
+                    watch_over()
                 raise WorkError(i)
             return ('y', i)
         finally:
@@ -195,6 +205,8 @@ def _one_side(case, asynchronous):
             for _ in range(dur[i]):
                 await asyncio.sleep(0)
             if i in re:
+                if not case['rexc']:
+                    watch_over()
                 raise WorkError(i)
             return ('y', i)
         finally:
@@ -204,6 +216,8 @@ def _one_side(case, asynchronous):
         i = x - BASE
         if i in pf:
             log(('preFail', i))
+            if not case['rexc']:
+                watch_over()
             raise PreError(i)
         return x + PP
 
@@ -216,14 +230,24 @@ def _one_side(case, asynchronous):
         if case['src'] == 'stopreq':
             raise StopRequested()
 
+    ahead = {'pulled': 0, 'recv': 0, 'max': 0}     # source elements pulled but not yet handed to the consumer (C08)
+
+    def pulled():
+        # "while the stream is consumed": the watch ends when the consumer has its last output, the failure, or closes
+        ahead['pulled'] += 1
+        if not ahead.get('over'):
+            ahead['max'] = max(ahead['max'], ahead['pulled'] - ahead['recv'])
+
     def sync_src():
         for i in range(n):
+            pulled()
             yield BASE + i
         src_end()
 
     async def async_src():
         for i in range(n):
             log(('pull', i))
+            pulled()
             yield BASE + i
         src_end()
 
@@ -232,12 +256,15 @@ def _one_side(case, asynchronous):
     def sync_consume(gen):
         try:
             for v in gen:
+                ahead['recv'] += 1
                 out.append(_decode(v, case['retx']))
                 if case['stop_after'] is not None and len(out) == case['stop_after']:
+                    ahead['over'] = True
                     gen.close()
                     return ('closed',)
             return ('end',)
         except (WorkError, PreError, SrcError, StopRequested, UnboundLocalError) as e:
+            ahead['over'] = True
             return _classify(e)
 
     async def async_consume(gen):
@@ -248,11 +275,13 @@ def _one_side(case, asynchronous):
                     log(('next',))
                 first = False
                 v = await gen.__anext__()
+                ahead['recv'] += 1
                 ix, iy, k = _decode(v, case['retx'])
                 log(('yld', iy if iy is not None else -1) + ((ix,) if ix is not None else ()))
                 out.append((ix, iy, k))
                 if case['stop_after'] is not None and len(out) == case['stop_after']:
                     log(('close',))
+                    ahead['over'] = True
                     await gen.aclose()
                     # No `join` here: `AsyncServer.stream` and `AsyncParmapper.__aiter__` are async generators
                     # *around* `async_fifo_stream`; closing the outer one does not close the inner one
@@ -263,6 +292,7 @@ def _one_side(case, asynchronous):
             log(('join',))
             return ('end',)
         except (WorkError, PreError, SrcError, StopRequested, UnboundLocalError) as e:
+            ahead['over'] = True
             log(('join',))
             return _classify(e)
 
@@ -369,6 +399,7 @@ def _one_side(case, asynchronous):
     if asynchronous and e is None:
         ev.append(('final',))
     calls['__max_running__'] = run['max']
+    calls['__max_ahead__'] = ahead['max']
     return v, e, s, out, calls, ev
 
 
@@ -376,10 +407,18 @@ def run_case(case):
     av, ae, as_, aout, acalls, aev = _one_side(case, True)
     sv, se, ss, sout, scalls, _ = _one_side(case, False)
     amax, smax = acalls.pop('__max_running__', 0), scalls.pop('__max_running__', 0)
+    aahead, sahead = acalls.pop('__max_ahead__', 0), scalls.pop('__max_ahead__', 0)
     res = dict(max_running=[amax, smax], events=aev, steps=[as_.steps, ss.steps], switches=as_.switches, monitors=[],
                out=None, end=None, sync_out=None, sync_end=None)
     mon = res['monitors']
     if case['kind'] in ('apmap_thread', 'pmap_async'):
+        # C08: at most capacity+3 = 2*concurrency+3 source elements pulled but not yet handed to the consumer
+        for side, mx in (('async', aahead), ('sync', sahead)):
+            if mx > 2 * case['conc'] + 3:
+                what = {'apmap_thread': {'async': 'AsyncStream.parmap(sync worker)', 'sync': 'Stream.parmap(sync worker)'},
+                        'pmap_async': {'async': 'Stream.parmap(async worker)', 'sync': 'Stream.parmap(sync worker)'}}[case['kind']][side]
+                mon.append(dict(prop='C08', rule='lookahead', detail=f'{what}: {mx} source elements pulled but not yet handed to the '
+                                                                      f'consumer > 2*concurrency+3 = {2 * case["conc"] + 3}'))
         # C08: no more than `concurrency` invocations of the worker function at any time (async variant, sync reference)
         for side, mx in (('async', amax), ('sync', smax)):
             if mx > case['conc']:
